@@ -219,7 +219,7 @@ def judge_put(case, out, before, after, res, prop="C01"):
         """meta of the argument blamed for a case-level failure: an argument whose spelling
         is one of the risky ones wins (so that a known finding present in the case is the
         one blamed), then lexical / name match, then the first argument"""
-        risky = ("lnk_dotdot", "dot_slash", "dotdot_slash", "e_dot_slash", "mountpoint")
+        risky = ("lnk_dotdot", "mountpoint")  # spellings of the open findings F3, F2
         for m in case["meta"]:
             if m["spelling"] in risky:
                 return m
